@@ -102,8 +102,11 @@ class Report:
         os.makedirs(outdir, exist_ok=True)
         lines = []
         code = 0
+        by_finding = {}
         for k, ob in self.known_hits:
-            lines.append("KNOWN-FINDING: property=%s %s [%s %s at %s]" % (self.pid, k["what"], ob["rule"], ob["instance"], ob["where"]))
+            by_finding.setdefault((k["rule"], k["instance"]), (k, []))[1].append(ob["where"])
+        for (rule, inst), (k, wheres) in by_finding.items():
+            lines.append("KNOWN-FINDING: property=%s %s [%s %s at %s]" % (self.pid, k["what"], rule, inst, "; ".join(wheres)))
         # a listed known finding that no longer fires is reported (informational) so the file can be updated
         hit_keys = {(k["rule"], k["instance"]) for k, _ in self.known_hits}
         for k in self.known:
